@@ -78,6 +78,86 @@ impl Operator for NondetMixer {
     }
 }
 
+/// A control-flow-like operator: it has a subgraph that captures parent values
+/// by name, and mixes its inputs followed by the captured values (read through
+/// the capture environment, as If/Loop bodies do).
+pub struct CapMixer {
+    pub k: i64,
+    pub names: Vec<String>,
+    pub subgraph: Graph,
+    pub nondet: bool,
+}
+
+impl std::fmt::Debug for CapMixer {
+    fn fmt(&self, f: &mut std::fmt::Formatter<'_>) -> std::fmt::Result {
+        write!(f, "CapMixer{}", self.k)
+    }
+}
+
+impl Operator for CapMixer {
+    fn name(&self) -> &str {
+        "CapMixer"
+    }
+    fn run(&self, _ctx: &OpRunContext) -> Result<OutputList, OpError> {
+        Err(OpError::InvalidValue("CapMixer must be run as a subgraph operator"))
+    }
+    fn max_inputs(&self) -> Option<usize> {
+        None
+    }
+    fn output_types(&self, _ctx: &OutputTypesContext) -> Option<OutputTypeList> {
+        None
+    }
+    fn is_deterministic(&self) -> bool {
+        !self.nondet
+    }
+    fn as_subgraph_op(&self) -> Option<&dyn rten::verif::SubgraphOperator> {
+        Some(self)
+    }
+    fn as_infer_shapes(&self) -> Option<&dyn InferShapes> {
+        None
+    }
+}
+
+impl rten::verif::SubgraphOperator for CapMixer {
+    fn subgraphs(&self) -> smallvec::SmallVec<[&Graph; 2]> {
+        [&self.subgraph].into_iter().collect()
+    }
+    fn run_subgraph<'a>(
+        &'a self,
+        ctx: &OpRunContext,
+        captures: rten::verif::CaptureEnv,
+        _weight_cache: Option<&[rten::verif::WeightCache]>,
+        _profiler: Option<&mut rten::verif::Profiler<'a>>,
+        _run_opts: Option<rten::RunOptions>,
+    ) -> Result<OutputList, rten::RunError> {
+        let c = if self.nondet { NONDET_RUNS.fetch_add(1, Ordering::SeqCst) as i64 + 1 } else { 0 };
+        let mut args: Vec<Vec<i32>> = Vec::new();
+        for v in ctx.inputs().iter() {
+            match v {
+                Some(ValueView::Int32Tensor(t)) => args.push(t.iter().copied().collect()),
+                _ => panic!("CapMixer expects int32 inputs"),
+            }
+        }
+        for name in &self.names {
+            match captures.get_input(name) {
+                Some(ValueView::Int32Tensor(t)) => args.push(t.iter().copied().collect()),
+                _ => panic!("captured value {name} is not available"),
+            }
+        }
+        let n = args.iter().map(|a| a.len()).max().unwrap_or(1);
+        let data: Vec<i32> = (0..n)
+            .map(|j| {
+                let mut acc = 7 * self.k + 1 + 1009 * c;
+                for (p, a) in args.iter().enumerate() {
+                    acc += (p as i64 + 2) * (if a.len() == 1 { a[0] } else { a[j] }) as i64;
+                }
+                acc.rem_euclid(MODULUS) as i32
+            })
+            .collect();
+        Ok([Value::from(Tensor::from_data(&[n], data))].into_iter().collect())
+    }
+}
+
 fn ids_of(v: &serde_json::Value, key: &str) -> Vec<usize> {
     v[key].as_array().map(|a| a.iter().map(|x| x.as_u64().unwrap() as usize).collect()).unwrap_or_default()
 }
@@ -102,7 +182,16 @@ fn build(g: &serde_json::Value, rng: &mut Rng) -> (Graph, Vec<NodeId>, Vec<bool>
         let nondet = op["nondet"].as_bool().unwrap();
         let inplace = !nondet && rng.chance(1, 2);
         inplace_flags.push(inplace);
-        let operator: Arc<dyn Operator + Send + Sync> = if nondet {
+        let caps = ids_of(op, "caps");
+        let operator: Arc<dyn Operator + Send + Sync> = if !caps.is_empty() {
+            let names: Vec<String> = caps.iter().map(|v| format!("v{v}")).collect();
+            Arc::new(CapMixer {
+                k: i as i64 + 1,
+                subgraph: crate::synth::capture_only_subgraph(&names),
+                names,
+                nondet,
+            })
+        } else if nondet {
             Arc::new(NondetMixer { k: i as i64 + 1 })
         } else {
             Arc::new(Mixer { k: i as i64 + 1, comm: false, inplace })
